@@ -246,6 +246,7 @@ static void vec_snapshot(const Exclusions *v, const Exclusion *p)
 
 /* ghost wrappers through which the extracted Zones code reaches the vector */
 #ifdef L2_BY_CONTRACT
+Exclusion *g_spare;           /* the block the next growing insert will return (allocated by the harness) */
 static Exclusion nondet_excl(void)
 { Exclusion e; e.x = nondet_float(); e.xm = nondet_float(); e.c = nondet_float(); e.sm = nondet_float(); e.smx = nondet_float(); e.open = nondet_bool(); return e; }
 /* Contract application by hand.  Both contracts are functional: the ensures clauses fix the size, the capacity, the
@@ -261,7 +262,11 @@ static Exclusion *Vector_insert_g(Exclusions *v, Exclusion *p, const Exclusion x
     __CPROVER_assert(VEC_INSERT_PRE_SHAPE(v, p), "precondition of the Vector::insert contract (proved by c17_vec_insert_c8/_c4)");
     size_t cap1 = g_cap0;
     if (GROWS(g_n0, g_cap0)) {
-        Exclusion *nb = malloc(8 * sizeof(Exclusion)); __CPROVER_assume(nb != NULL);      /* fresh block of 8 */
+        /* fresh block of 8: the harness allocated it up front (g_spare) and nothing else refers to it; one spare is enough,
+           a block of 8 does not grow again while size < 8 (asserted).  Allocating inside the unwound loop would give the
+           verifier one candidate object per unwinding for every later access. */
+        __CPROVER_assert(g_spare != NULL, "bounded universe: at most one growth per operation");
+        Exclusion *nb = g_spare; g_spare = NULL;
         free(v->m_first);                                                                 /* frees clause: the old block is released */
         v->m_first = nb; v->m_end = nb + 8; cap1 = 8;
     }
@@ -642,11 +647,12 @@ void h_vec_stubs(void)
     v->m_first = a; v->m_last = a + n; v->m_end = a + cap;
     Exclusion x; x.open = nondet_bool();
     Exclusion *const p = a + idx;
+    g_spare = malloc(8 * sizeof(Exclusion)); __CPROVER_assume(g_spare != NULL);
     if (ins) {
         Exclusion *r = Vector_insert_g(v, p, x);
         __CPROVER_assert(VEC_INSERT_POST_SHAPE(v, r), "stub insert: shape clause of the contract");
         __CPROVER_assert(VEC_INSERT_POST_ELEMS(v, x), "stub insert: element clause of the contract");
-        __CPROVER_assert(VEC_INSERT_POST_STORE(v, __CPROVER_DEALLOCATED(g_first0)), "stub insert: storage clause of the contract");
+        __CPROVER_assert(VEC_INSERT_POST_STORE(v, __CPROVER_r_ok(g_first0, 1) == 0), "stub insert: storage clause of the contract");
     } else {
         Exclusion *r = Vector_erase_g(v, p);
         __CPROVER_assert(VEC_ERASE_POST_SHAPE(v, r, p), "stub erase: shape clause of the contract");
@@ -666,6 +672,9 @@ static Zones *mk_zones(size_t n, const uint32 *bx, const uint32 *bxm, const uint
     z->_exclusions.m_first = a; z->_exclusions.m_last = a + n; z->_exclusions.m_end = a + CAPV;
     z->_pos = f_of_bits(bpos); z->_posm = f_of_bits(bposm);
     z->_margin_len = nondet_float(); z->_margin_weight = nondet_float();
+#ifdef L2_BY_CONTRACT
+    g_spare = malloc(8 * sizeof(Exclusion)); __CPROVER_assume(g_spare != NULL);
+#endif
     return z;
 }
 /* inputs (bit patterns, so that the witness is exact), the ghost point and what was true of it before the call */
